@@ -10,7 +10,7 @@ from .program import Program
 from .report import Ctx
 
 # floors: numbers counted on the reference tree (see DESIGN.md section 6)
-FLOOR_REPO_EXPANSIONS = 64
+FLOOR_REPO_EXPANSIONS = 65
 
 
 class Env(object):
